@@ -1,26 +1,431 @@
-//! C28: not implemented yet.
+//! C28: persistent storage collections behave like their models.
+//!
+//! One case = one generated CONTRACT package in one build profile: a `storage { .. }` block with
+//! 2-3 StorageVec (u64, u8, b256, 24-byte struct), 2 StorageMap (u64/b256 keys; u64, u8, 24-byte
+//! and 40-byte two-slot values), a nested StorageMap<u64, StorageVec<_>>, StorageBytes,
+//! StorageString (plain or nested in a StorageMap) and plain u64 "canary" fields in between; an
+//! ABI with one method per (field, operation); and 28 `#[test]` functions. Each test is one
+//! HISTORY: 18-30 operations issued through `abi(Gen, CONTRACT_ID)` in one transaction
+//! (forc-test deploys the contract and starts every test from the initial storage). After every
+//! write a sweep reads a rotating subset of all OTHER fields / keys; at the end everything the
+//! model knows is read back. Every ABI method logs `(seq, result)`; the harness compares the
+//! ordered logs with Rust models (Vec, BTreeMap, Vec<u8>). Histories whose last call is documented
+//! to revert (set / insert / remove / swap_remove / swap out of bounds, `StorageKey::read` of an
+//! absent map value) must revert exactly there; all others must not revert. Every package is built
+//! and run with the real forc-test flow (`engine::run_unit_tests`) in release and in debug.
+//!
+//! The oracle never derives a slot address; interference is decided from reads only.
+//!
+//! Compiler limits that shaped the generated code (none of them is C28's business):
+//! * a program's data section is limited to 4096 words and every contract-call site takes about
+//!   two, so the tests call the ABI through one dispatcher function `d(id, method, seq, a, b, x)`
+//!   (one call site per ABI method), and values / keys travel as small integer codes that the
+//!   contract expands (`ex_u64`, `exk_b256`, ..) - the harness mirrors the expansion;
+//! * `x.clear()` on a StorageBytes/StorageString resolves to the inherent `StorageKey::clear`; the
+//!   documented `StorableSlice::clear` is reached through a generic helper (`tclear`).
+
 use crate::common::*;
+use crate::engine::{self, Outcome, Profile, UnitTestOutcome};
 use crate::{Plan, Prop};
+use serde_json::{json, Value};
+use std::panic::AssertUnwindSafe;
+use std::path::Path;
+
+#[path = "c28_gen.rs"]
+mod gen;
+use gen::{Expect, History};
 
 pub static META: PropertyMeta = PropertyMeta {
     id: "C28",
     level: "exploration",
-    rule: "not implemented",
-    assumptions: &[],
-    floor_evaluations: 1,
-    floor_nontrivial: 2,
-    required_counters: &[],
+    rule: "one evaluation = one history (a #[test] of 18-30 operations, 70% writes concentrated on 2-4 'hot' fields, each write followed by an interference sweep of 2-3 reads of other fields/keys, plus a final read-back of everything; or a short history ending in a call documented to revert) executed in the VM by forc-test in one build profile and compared log by log with the Rust model; non-trivial = the history writes >= 2 different fields/keys and contains >= 1 interference (sweep) read, and all its logs were compared; distinct = hash of the test body; counters are per execution (every history runs in debug and in release)",
+    assumptions: &[
+        "the canonical ABI encoding of the logged values (u64, u8, bool, b256, structs, Vec, Bytes, String) is as decoded by the harness (checked by the reads that do match)",
+        "default storage implementation (experimental dynamic_storage = false), which is what forc builds by default",
+        "where the documentation leaves a result open the oracle accepts every documented possibility: read_slice of an empty slice may be None or Some(empty); the flag returned by clear() is only checked when non-empty content was stored",
+    ],
+    floor_evaluations: 100,
+    floor_nontrivial: 40,
+    required_counters: &[
+        "class_vec_ops",
+        "class_map_ops",
+        "class_bytes_ops",
+        "class_string_ops",
+        "class_canary_ops",
+        "nested_vec_ops",
+        "sweep_reads_compared",
+        "final_reads_compared",
+        "reads_compared",
+        "expected_reverts_seen",
+        "slice_len_boundary",
+        "profile_release_histories",
+    ],
 };
 
 pub static PROP: Prop = Prop {
     meta: &META,
-    plan: |_t| Plan { nshards: 1, budget_s: 1.0, mem_gib: 0 },
-    shard: |_ctx| {
-        let mut r = ShardResult::default();
-        r.harness_fault = Some("not implemented".into());
-        r
-    },
-    replay: crate::no_replay,
+    plan: |t| Plan { nshards: 16, budget_s: t.pick(22.0, 1000.0), mem_gib: 8 },
+    shard,
+    replay,
     extra: crate::no_extra,
-    subcommand: crate::no_subcommand,
+    subcommand,
 };
+
+const HIST_PER_PKG: usize = 28;
+/// release first: it builds several times faster than debug, so a slow machine still observes something
+const ORDER: [Profile; 2] = [Profile::Release, Profile::Debug];
+
+/// Result of comparing one executed test with its history.
+enum Cmp {
+    Ok { compared: usize },
+    Violation { sig: String, desc: String },
+    Inconclusive(String),
+}
+
+fn describe(e: &Expect) -> String {
+    format!("{} [{} {} {}]", e.call, e.coll, e.op, e.phase)
+}
+
+fn compare(expect: &[Expect], revert: Option<&Expect>, t: &UnitTestOutcome) -> Cmp {
+    if let Outcome::Panic(p) = &t.outcome {
+        if p.contains("OutOfGas") {
+            return Cmp::Inconclusive(format!("test {} ran out of gas", t.name));
+        }
+    }
+    if let Outcome::VmError(e) = &t.outcome {
+        return Cmp::Inconclusive(format!("test {}: VM refused the transaction: {e}", t.name));
+    }
+    let logs: Vec<&Vec<u8>> = t.logs.iter().map(|(_, _, d)| d).collect();
+    // 1. ordered comparison of everything that was logged
+    for (i, l) in logs.iter().enumerate() {
+        let Some(e) = expect.get(i) else {
+            // one log beyond the expected ones
+            if let (Some(r), true) = (revert, i == expect.len()) {
+                if l.len() >= 8 && l[..8] == r.seq.to_be_bytes() {
+                    return Cmp::Violation {
+                        sig: format!("missing-revert:{}:{}", r.coll, r.op),
+                        desc: format!("{} is documented to revert but completed (logged {})", describe(r), hex::encode(l)),
+                    };
+                }
+            }
+            return Cmp::Violation { sig: "unexpected-log".into(), desc: format!("log #{i} {} beyond the {} expected logs", hex::encode(l), expect.len()) };
+        };
+        if l.len() < 8 || l[..8] != e.seq.to_be_bytes() {
+            return Cmp::Violation {
+                sig: format!("log-out-of-sequence:{}:{}", e.coll, e.op),
+                desc: format!("log #{i} is {} but the next expected log belongs to call {} {}", hex::encode(l), e.seq, describe(e)),
+            };
+        }
+        let got = hex::encode(&l[8..]);
+        if !e.any && !e.accept.iter().any(|a| *a == got) {
+            return Cmp::Violation {
+                sig: format!("read-mismatch:{}:{}:{}", e.coll, e.op, e.phase),
+                desc: format!("{} returned {} but the model predicts {}", describe(e), got, e.accept.join(" or ")),
+            };
+        }
+    }
+    // 2. termination
+    let reverted = t.outcome.reverted();
+    match (revert, reverted) {
+        (None, false) => {
+            if logs.len() < expect.len() {
+                let e = &expect[logs.len()];
+                return Cmp::Violation { sig: format!("missing-log:{}:{}", e.coll, e.op), desc: format!("test returned but {} logged nothing", describe(e)) };
+            }
+            Cmp::Ok { compared: logs.len() }
+        }
+        (None, true) => {
+            let at = expect.get(logs.len()).map(describe).unwrap_or_else(|| "after the last call".into());
+            let (c, o, ph) = expect.get(logs.len()).map(|e| (e.coll.clone(), e.op.clone(), e.phase.clone())).unwrap_or_default();
+            Cmp::Violation { sig: format!("unexpected-revert:{c}:{o}:{ph}"), desc: format!("{:?} in {at}, which is not documented to revert here", t.outcome) }
+        }
+        (Some(r), true) => {
+            if logs.len() < expect.len() {
+                let e = &expect[logs.len()];
+                return Cmp::Violation {
+                    sig: format!("unexpected-revert:{}:{}:{}", e.coll, e.op, e.phase),
+                    desc: format!("{:?} in {}, before the call that is documented to revert ({})", t.outcome, describe(e), describe(r)),
+                };
+            }
+            Cmp::Ok { compared: logs.len() }
+        }
+        (Some(r), false) => Cmp::Violation { sig: format!("missing-revert:{}:{}", r.coll, r.op), desc: format!("{} is documented to revert but the test returned", describe(r)) },
+    }
+}
+
+fn replay_value(src: &str, h: &History, profile: Profile) -> Value {
+    json!({
+        "source": src,
+        "test": h.name,
+        "profile": profile.name(),
+        "expect": h.expect,
+        "revert": h.revert,
+    })
+}
+
+fn note_stats(h: &History, profile: Profile, compared: usize, res: &mut ShardResult) {
+    let s = &h.stats;
+    for (class, coll, op, phase) in &s.ops {
+        res.count(&format!("class_{class}_ops"));
+        res.count(&format!("ops_{coll}_{op}"));
+        if coll.starts_with("nested_vec") {
+            res.count("nested_vec_ops");
+        }
+        if coll.starts_with("nested_bytes") || coll.starts_with("nested_string") {
+            res.count("nested_slice_ops");
+        }
+        match phase.as_str() {
+            "sweep" => res.count("sweep_reads_compared"),
+            "final" => res.count("final_reads_compared"),
+            _ => {}
+        }
+    }
+    res.add("reads_compared", compared as u64);
+    res.add("interference_sweeps", s.sweeps);
+    res.add("reads_of_absent_values", s.none_reads);
+    res.add("fields_written_total", s.fields_touched.len() as u64);
+    res.add("keys_written_total", s.keys_touched.len() as u64);
+    res.max("max_fields_written_per_history", s.fields_touched.len() as u64);
+    res.max("max_keys_written_per_history", s.keys_touched.len() as u64);
+    res.max("max_write_points_per_history", s.write_points.len() as u64);
+    res.max("max_vec_len", s.max_vec_len);
+    res.max("max_calls_per_history", h.expect.len() as u64);
+    for n in &s.slice_lens {
+        if gen::BOUNDARY_LENS.contains(n) {
+            res.count("slice_len_boundary");
+            res.count(&format!("slice_len_{n:02}"));
+        } else {
+            res.count("slice_len_other");
+        }
+        res.max("max_slice_len", *n);
+    }
+    res.count(&format!("profile_{}_histories", profile.name()));
+    if h.revert.is_some() {
+        res.count("expected_reverts_seen");
+        if let Some(r) = &h.revert {
+            res.count(&format!("expected_revert_{}_{}", r.coll.split('_').next().unwrap_or(""), r.op));
+        }
+    } else {
+        res.count("histories_completed");
+    }
+}
+
+/// Build + run one package in one profile and compare every history.
+fn run_package(dir: &Path, src: &str, histories: &[History], profile: Profile, res: &mut ShardResult) {
+    let out = catch(AssertUnwindSafe(|| engine::run_unit_tests(dir, profile, 2, None)));
+    let run = match out {
+        Ok(Ok(r)) => r,
+        Ok(Err(e)) => {
+            res.count("package_build_or_run_failed");
+            // forc reports "Failed to compile" only; fetch the first diagnostics for the note
+            let mut diag = String::new();
+            let mut am = engine::Amortised::new(&dir.join("diag"));
+            if let Ok(Ok((errs, _))) = catch(AssertUnwindSafe(|| am.diagnose_dir(dir, profile))) {
+                diag = errs.iter().take(3).map(|e| format!("{e} @ {:?}", sway_types::Spanned::span(e).as_str().chars().take(80).collect::<String>())).collect::<Vec<_>>().join(" | ");
+            }
+            res.inconclusive(format!("package {} ({}) did not build/run: {} {}", dir.display(), profile.name(), format!("{e:#}").chars().take(400).collect::<String>(), diag));
+            return;
+        }
+        Err((loc, msg)) => {
+            res.count("package_build_panicked");
+            res.inconclusive(format!("forc-test panicked on package {} ({}): {msg} at {loc}", dir.display(), profile.name()));
+            return;
+        }
+    };
+    res.count(&format!("packages_run_{}", profile.name()));
+    for h in histories {
+        let Some(t) = run.tests.iter().find(|t| t.name == h.name) else {
+            res.inconclusive(format!("test {} missing from the forc-test result of {}", h.name, dir.display()));
+            continue;
+        };
+        res.evaluations += 1;
+        res.max("max_gas_used", t.gas_used);
+        match compare(&h.expect, h.revert.as_ref(), t) {
+            Cmp::Ok { compared } => {
+                note_stats(h, profile, compared, res);
+                if h.stats.write_points.len() >= 2 && h.stats.sweep_reads >= 1 {
+                    res.note_nontrivial(hash64(h.body.as_bytes()));
+                }
+                if res.samples.len() < 2 && h.revert.is_none() {
+                    res.sample(json!({"profile": profile.name(), "test": h.body, "logs_compared": compared, "gas": t.gas_used}));
+                }
+            }
+            Cmp::Violation { sig, desc } => {
+                res.violation(format!("C28:{sig}"), format!("{} ({}): {desc}", h.name, profile.name()), replay_value(src, h, profile));
+            }
+            Cmp::Inconclusive(n) => res.inconclusive(n),
+        }
+    }
+}
+
+fn shard(ctx: &ShardCtx) -> ShardResult {
+    let mut res = ShardResult::default();
+    // case index = 2 * package index + profile, so that the per-case watchdog can give up on one
+    // build and the shard resumes with the next one
+    let mut pkg_index = ctx.first_index / 2;
+    // The first forc build of a process is several times slower than the following ones (std is
+    // compiled from scratch); do it on a trivial contract outside the per-case watchdog so that
+    // the watchdog only ever times the generated packages.
+    let wdir = ctx.work().join("warmup");
+    let warm = "contract;\n\nabi W {\n    fn w() -> u64;\n}\n\nimpl W for Contract {\n    fn w() -> u64 {\n        7u64\n    }\n}\n\n#[test]\nfn t_w() {\n    let c = abi(W, CONTRACT_ID);\n    assert(c.w() == 7u64);\n}\n";
+    let t0 = std::time::Instant::now();
+    match engine::write_pkg(&wdir, "c28warm", warm, true).and_then(|_| engine::run_unit_tests(&wdir, Profile::Release, 1, None)) {
+        Ok(run) if run.tests.iter().all(|t| t.passed) => res.max("max_warmup_ms", t0.elapsed().as_millis() as u64),
+        Ok(_) => {
+            res.harness_fault = Some("the warm-up contract's own test failed: the forc-test flow does not work".into());
+            return res;
+        }
+        Err(e) => {
+            res.harness_fault = Some(format!("the warm-up contract does not build: {e:#}"));
+            return res;
+        }
+    }
+    let _ = std::fs::remove_dir_all(&wdir);
+    let mut first = true;
+    while first || ctx.time_left() {
+        first = false;
+        let mut rng = ctx.rng(pkg_index);
+        let pkg = gen::gen_package(&mut rng, HIST_PER_PKG);
+        let dir = ctx.work().join(format!("p{pkg_index}"));
+        if let Err(e) = engine::write_pkg(&dir, "c28gen", &pkg.src, true) {
+            res.harness_fault = Some(format!("cannot write package: {e}"));
+            return res;
+        }
+        for (k, profile) in ORDER.into_iter().enumerate() {
+            let case = pkg_index * 2 + k as u64;
+            if case < ctx.first_index {
+                continue;
+            }
+            journal_current(ctx, &format!("package {} profile {}", dir.display(), profile.name()));
+            ctx.begin_case(case, &format!("// profile {}\n{}", profile.name(), pkg.src), &res);
+            run_package(&dir, &pkg.src, &pkg.histories, profile, &mut res);
+            ctx.end_case();
+        }
+        let _ = std::fs::remove_dir_all(&dir);
+        pkg_index += 1;
+    }
+    res
+}
+
+fn replay(case: &Value) -> ShardResult {
+    let mut res = ShardResult::default();
+    let (Some(src), Some(test)) = (case["source"].as_str(), case["test"].as_str()) else {
+        res.harness_fault = Some("replay file has no source/test".into());
+        return res;
+    };
+    let profile = if case["profile"].as_str() == Some("release") { Profile::Release } else { Profile::Debug };
+    let expect: Vec<Expect> = serde_json::from_value(case["expect"].clone()).unwrap_or_default();
+    let revert: Option<Expect> = serde_json::from_value(case["revert"].clone()).unwrap_or(None);
+    let dir = work_dir("C28").join("replay");
+    clean_dir(&dir);
+    if let Err(e) = engine::write_pkg(&dir, "c28gen", src, true) {
+        res.harness_fault = Some(format!("cannot write package: {e}"));
+        return res;
+    }
+    match engine::run_unit_tests(&dir, profile, 1, Some((test, true))) {
+        Ok(run) => match run.tests.iter().find(|t| t.name == test) {
+            Some(t) => {
+                res.evaluations += 1;
+                match compare(&expect, revert.as_ref(), t) {
+                    Cmp::Ok { compared } => res.add("reads_compared", compared as u64),
+                    Cmp::Violation { sig, desc } => res.violation(format!("C28:{sig}"), format!("{test} ({}): {desc}", profile.name()), case.clone()),
+                    Cmp::Inconclusive(n) => res.inconclusive(n),
+                }
+            }
+            None => res.harness_fault = Some(format!("test {test} not found in the package")),
+        },
+        Err(e) => res.harness_fault = Some(format!("package does not build/run: {e:#}")),
+    }
+    res
+}
+
+/// `swverif c28probe <dir> [logs]`: run the unit tests of a hand-written package in both profiles.
+/// `swverif c28gen <seed> <shard> <pkg_index> <dir>`: write the generated package for inspection.
+/// `swverif c28selftest`: oracle self test on synthetic observations.
+fn subcommand(args: &[String]) -> Option<i32> {
+    match args.first().map(|s| s.as_str()) {
+        Some("c28probe") => {
+            let dir = std::path::PathBuf::from(&args[1]);
+            for p in Profile::BOTH {
+                let t0 = std::time::Instant::now();
+                match engine::run_unit_tests(&dir, p, 1, None) {
+                    Ok(run) => {
+                        println!("== {} built+ran in {:.2}s, {} tests", p.name(), t0.elapsed().as_secs_f64(), run.tests.len());
+                        for t in &run.tests {
+                            println!("  {} passed={} outcome={:?} gas={} logs={}", t.name, t.passed, t.outcome, t.gas_used, t.logs.len());
+                            if args.len() > 2 {
+                                for (id, rb, d) in &t.logs {
+                                    println!("      {} {rb} {}", &id[..4], hex::encode(d));
+                                }
+                            }
+                        }
+                    }
+                    Err(e) => println!("== {} error: {e:#}", p.name()),
+                }
+            }
+            Some(0)
+        }
+        Some("c28gen") => {
+            let seed: u64 = args[1].parse().unwrap_or(1);
+            let shard: u64 = args[2].parse().unwrap_or(0);
+            let idx: u64 = args[3].parse().unwrap_or(0);
+            let mut rng = rng_for(seed, shard, idx);
+            let nh = std::env::var("C28_HIST").ok().and_then(|s| s.parse().ok()).unwrap_or(HIST_PER_PKG);
+            let pkg = gen::gen_package(&mut rng, nh);
+            let dir = std::path::PathBuf::from(&args[4]);
+            engine::write_pkg(&dir, "c28gen", &pkg.src, true).expect("write");
+            let calls: usize = pkg.histories.iter().map(|h| h.expect.len()).sum();
+            println!("{} fields, {} histories, {} calls, {} source lines", pkg.schema.fields.len(), pkg.histories.len(), calls, pkg.src.lines().count());
+            let mut res = ShardResult::default();
+            for p in ORDER {
+                let t0 = std::time::Instant::now();
+                run_package(&dir, &pkg.src, &pkg.histories, p, &mut res);
+                println!("{}: {:.1}s evaluations={} violations={} inconclusive={:?}", p.name(), t0.elapsed().as_secs_f64(), res.evaluations, res.violations.len(), res.inconclusive_notes);
+            }
+            for v in &res.violations {
+                println!("VIOLATION {} :: {}", v.signature, v.description);
+            }
+            println!("{}", serde_json::to_string(&res.counters).unwrap());
+            Some(0)
+        }
+        Some("c28selftest") => Some(selftest()),
+        _ => None,
+    }
+}
+
+/// Synthetic bad observations: the comparison must flag each of them.
+fn selftest() -> i32 {
+    let e = |seq: u64, payload: &[u8], op: &str| Expect { seq, accept: vec![hex::encode(payload)], any: false, coll: "vec_u64".into(), op: op.into(), phase: "op".into(), call: format!("c.f_{op}({seq}u64)") };
+    let log = |seq: u64, payload: &[u8]| {
+        let mut d = seq.to_be_bytes().to_vec();
+        d.extend_from_slice(payload);
+        (String::new(), 0u64, d)
+    };
+    let t = |outcome: Outcome, logs: Vec<(String, u64, Vec<u8>)>| UnitTestOutcome { name: "t".into(), passed: true, outcome, logs, gas_used: 0 };
+    let expect = vec![e(1, &[], "push"), e(2, &[0, 0, 0, 0, 0, 0, 0, 5], "len")];
+    let rev = e(3, &[], "remove");
+    let mut bad = 0;
+    let mut check = |name: &str, c: Cmp, want: &str| {
+        let got = match &c {
+            Cmp::Ok { .. } => "ok".to_string(),
+            Cmp::Violation { sig, .. } => sig.clone(),
+            Cmp::Inconclusive(_) => "inconclusive".to_string(),
+        };
+        let ok = got.starts_with(want);
+        println!("{} {name}: {got}", if ok { "ok  " } else { "FAIL" });
+        if !ok {
+            bad += 1;
+        }
+    };
+    check("good", compare(&expect, None, &t(Outcome::Return(0), vec![log(1, &[]), log(2, &[0, 0, 0, 0, 0, 0, 0, 5])])), "ok");
+    check("wrong value", compare(&expect, None, &t(Outcome::Return(0), vec![log(1, &[]), log(2, &[0, 0, 0, 0, 0, 0, 0, 6])])), "read-mismatch");
+    check("missing log", compare(&expect, None, &t(Outcome::Return(0), vec![log(1, &[])])), "missing-log");
+    check("out of sequence", compare(&expect, None, &t(Outcome::Return(0), vec![log(2, &[0, 0, 0, 0, 0, 0, 0, 5])])), "log-out-of-sequence");
+    check("unexpected revert", compare(&expect, None, &t(Outcome::Revert(1), vec![log(1, &[])])), "unexpected-revert");
+    check("extra log", compare(&expect, None, &t(Outcome::Return(0), vec![log(1, &[]), log(2, &[0, 0, 0, 0, 0, 0, 0, 5]), log(9, &[])])), "unexpected-log");
+    check("good revert", compare(&expect, Some(&rev), &t(Outcome::Revert(1), vec![log(1, &[]), log(2, &[0, 0, 0, 0, 0, 0, 0, 5])])), "ok");
+    check("missing revert", compare(&expect, Some(&rev), &t(Outcome::Return(0), vec![log(1, &[]), log(2, &[0, 0, 0, 0, 0, 0, 0, 5]), log(3, &[])])), "missing-revert");
+    check("early revert", compare(&expect, Some(&rev), &t(Outcome::Revert(1), vec![log(1, &[])])), "unexpected-revert");
+    check("out of gas", compare(&expect, None, &t(Outcome::Panic("OutOfGas".into()), vec![log(1, &[])])), "inconclusive");
+    bad
+}
